@@ -99,31 +99,7 @@ def run(ctx):
                 ok = _is_parse_call(v) or (isinstance(v, ast.Constant) and v.value is True)
                 (r.ok if ok else lambda d: r.fail(m, s.ast, norm(s.ast), "unconverted value stored"))("%s: %s" % (m.short, norm(s.ast)))
                 continue
-            var = v.id
-            defs = cfg.writes(lambda t: t == var)
-            if var in m.params:
-                defs = defs + [cfg.entry]
-            elem_loops = set()
-            for n in cfg.nodes:
-                if n.kind == "for":
-                    body_stores = [x for x in walk_no_nested(n.ast) if isinstance(x, ast.Assign) and any(isinstance(t, ast.Subscript) and isinstance(t.value, ast.Name) and t.value.id == var for t in x.targets) and _is_parse_call(x.value)]
-                    iter_ok = var in q.names_in(n.ast.iter)
-                    if body_stores and iter_ok:
-                        elem_loops.add(n.id)
-            bad = None
-            for d in defs:
-                # does this definition reach the store without another definition in between?
-                others = [x.id for x in defs if x is not d and x is not cfg.entry]
-                if s.id not in cfg.reach([d.id], blocked=others) and d.id != s.id:
-                    continue
-                val = d.ast.value if d is not cfg.entry and isinstance(d.ast, ast.Assign) else None
-                if val is not None and (_is_parse_call(val) or (isinstance(val, ast.Constant) and val.value is True)):
-                    continue
-                # raw value / list wrap: must pass the element-wise conversion loop
-                if elem_loops and s.id not in cfg.reach_strict(d.id, blocked=set(elem_loops) | set(others)):
-                    continue
-                bad = d
-                break
+            bad = _unconverted_def(ctx, m, cfg, s, v.id)
             if bad is None:
                 r.ok("%s: %s (all reaching definitions converted)" % (m.short, norm(s.ast)))
             else:
@@ -132,7 +108,7 @@ def run(ctx):
 
     # ---------------------------------------------------------------- R3
     r = ctx.rule("C01-R3", "GUARD", "tokens after '--' are never parsed as options: every option-parsing call is "
-                 "dominated by the separator flag, which is only ever cleared", reference=3)
+                 "dominated by the separator flag, which is only ever cleared", reference=4)
     pm = parser.methods.get("_parse")
     ctx.require(pm is not None, "DefaultArgsParser._parse missing")
     cfg = ctx.cfg(pm)
@@ -286,7 +262,7 @@ def run(ctx):
     # ---------------------------------------------------------------- R9
     r = ctx.rule("C01-R9", "READONLY", "reading values never sets any: the accessors of Args (everything but the set_* "
                  "methods and the constructor) do not mutate the value maps, at any alias depth - 'nothing else set' "
-                 "must survive a call of options()/arguments()", reference=2)
+                 "must survive a call of options()/arguments()", reference=13)
     from ..effects import root as _root, is_fresh as _fresh, show as _show, path_fields as _pf
     eff = ctx.effects
     for name, m in sorted(args.methods.items()):
@@ -316,6 +292,42 @@ def run(ctx):
                  "in this result - the parser's scratch attributes are re-initialised before their first use (same rule as C05-R1)", reference=2)
     scratch_rule(ctx, r, parser.methods["parse"])
     return ctx.results
+
+
+def _unconverted_def(ctx, m, cfg, s, var, depth=0):
+    """A definition of local ``var`` that can reach CFG node ``s`` (a store / return of var) without the value having been converted by
+    <declaration>.parse: a parse call, the literal True, the element-wise conversion loop over var, or a helper method of the same
+    object whose every returned value is converted in the same sense.  None when there is no such definition."""
+    defs = cfg.writes(lambda t: t == var)
+    if var in m.params:
+        defs = defs + [cfg.entry]
+    elem_loops = set()
+    for n in cfg.nodes:
+        if n.kind == "for":
+            body_stores = [x for x in walk_no_nested(n.ast) if isinstance(x, ast.Assign) and any(isinstance(t, ast.Subscript) and isinstance(t.value, ast.Name) and t.value.id == var for t in x.targets) and _is_parse_call(x.value)]
+            iter_ok = var in q.names_in(n.ast.iter)
+            if body_stores and iter_ok:
+                elem_loops.add(n.id)
+    for d in defs:
+        # does this definition reach the store without another definition in between?
+        others = [x.id for x in defs if x is not d and x is not cfg.entry]
+        if s.id not in cfg.reach([d.id], blocked=others) and d.id != s.id:
+            continue
+        val = d.ast.value if d is not cfg.entry and isinstance(d.ast, ast.Assign) else None
+        if val is not None and (_is_parse_call(val) or (isinstance(val, ast.Constant) and val.value is True)):
+            continue
+        if val is not None and depth < 2 and isinstance(val, ast.Call) and isinstance(val.func, ast.Attribute) and isinstance(val.func.value, ast.Name) and val.func.value.id == "self" \
+                and m.cls is not None and val.func.attr in m.cls.methods:
+            h = m.cls.methods[val.func.attr]
+            hcfg = ctx.cfg(h)
+            rets = [n for n in hcfg.nodes if n.kind == "return"]
+            if rets and all(n.ast.value is not None and (_is_parse_call(n.ast.value) or (isinstance(n.ast.value, ast.Name) and _unconverted_def(ctx, h, hcfg, n, n.ast.value.id, depth + 1) is None)) for n in rets):
+                continue
+        # raw value / list wrap: must pass the element-wise conversion loop
+        if elem_loops and s.id not in cfg.reach_strict(d.id, blocked=set(elem_loops) | set(others)):
+            continue
+        return d
+    return None
 
 
 def pushback_rule(ctx, r, parser):
